@@ -106,6 +106,9 @@ func gen(r *core.PRNG, tier string) any {
 		p.IDs = []string{"seq", "rand", "scratch", "wire"}[r.Intn(4)]
 		p.Secret = []string{"rand", "rand", "zero", "one", "minus1"}[r.Intn(5)]
 		p.Arrive = subsetPlan(r, p.N, p.T+1)
+		if r.Chance(1, 12) {
+			p.EFault = "stuck"
+		}
 	} else {
 		p.Kind = "rsa"
 		names := fixtures.RSANames()
@@ -189,7 +192,14 @@ func execSS(p *Plan, run *core.Run) {
 	ent := core.NewStream(p.Seed)
 	// group.Ristretto255 ignores the reader it is given and draws from crypto/rand.Reader
 	// (reported under C11); route that through the entropy device as well
-	rand.Reader = core.NewStream(p.Seed + 9)
+	rr := core.NewStream(p.Seed + 9)
+	rand.Reader = rr
+	if p.EFault == "stuck" {
+		// the dealer's entropy device is stuck at zero: the polynomial it draws has zero
+		// coefficients (worthless for secrecy; the arithmetic must still be consistent)
+		ent.Fill, rr.Fill = 1, 1
+		run.Fault("entropy:device-stuck-at-zero")
+	}
 	var secret group.Scalar
 	switch p.Secret {
 	case "zero":
@@ -276,8 +286,9 @@ func execSS(p *Plan, run *core.Run) {
 		run.Violate(comp+".New", "modifies-the-secret-operand", "the caller's secret changed")
 		return
 	}
-	// no single share is the secret (t >= 1)
-	if p.T >= 1 {
+	// no single share is the secret (t >= 1; with a device stuck at zero the polynomial is the
+	// constant one and every share is the secret: that is the fault, not the library)
+	if p.T >= 1 && p.EFault != "stuck" {
 		for i, s := range shares {
 			if vb, _ := s.Value.MarshalBinary(); string(vb) == string(want) {
 				idb, _ := s.ID.MarshalBinary()
